@@ -312,6 +312,12 @@ type c06Config struct {
 	BlockSeconds int64
 	Blocks       int64
 	NFiles       int
+	// Base is added to every block time (0 = none).  In the wall-clock-anchored history it puts the sub-hour
+	// part of all block times 1.5 s after Anchor's, and the generator waits for Anchor before it executes the
+	// plan upgrade: a price that depended on the node's clock (rounded to hours or finer) then differs on every
+	// node that executes the block a few seconds later.
+	Base   time.Duration
+	Anchor time.Time
 }
 
 func c06Genesis(cfg c06Config) (*c06History, []c06Acct, error) {
@@ -460,25 +466,25 @@ type c06FtEntry struct {
 
 type c06Gen struct {
 	pendingPost *c06Pending
-	r      *RunCtx
-	p      *PRNG
-	cfg    c06Config
-	h      *c06History
-	accts  []c06Acct
-	node   *c06Node
-	txCfg  client.TxConfig
-	files  []*c06File
-	ft     []c06FtEntry
-	names  []string // registered rns names (with owner index in nameOwner)
-	nameOw map[string]int
-	cur    *c06Block
-	curTr  *c06BlockTrace
-	hdr    tmproto.Header
-	chall  [][3]int64 // (gas+height, pieces, chunk)
-	acls   int
-	forms  int
-	pays   int
-	histNo int
+	r           *RunCtx
+	p           *PRNG
+	cfg         c06Config
+	h           *c06History
+	accts       []c06Acct
+	node        *c06Node
+	txCfg       client.TxConfig
+	files       []*c06File
+	ft          []c06FtEntry
+	names       []string // registered rns names (with owner index in nameOwner)
+	nameOw      map[string]int
+	cur         *c06Block
+	curTr       *c06BlockTrace
+	hdr         tmproto.Header
+	chall       [][3]int64 // (gas+height, pieces, chunk)
+	acls        int
+	forms       int
+	pays        int
+	histNo      int
 
 	challFindings, aclFindings, payFindings int // caps, so that the divergence findings are never crowded out
 }
@@ -1293,7 +1299,7 @@ func (g *c06Gen) run() (*c06Trace, error) {
 	}
 	lastHash := g.node.app.LastCommitID().Hash
 	for height := int64(2); height < 2+cfg.Blocks; height++ {
-		blk := c06Block{Height: height, Time: T0.Add(time.Duration(height*cfg.BlockSeconds) * time.Second), AppHash: lastHash, Proposer: g.h.ValAddr}
+		blk := c06Block{Height: height, Time: T0.Add(cfg.Base).Add(time.Duration(height*cfg.BlockSeconds) * time.Second), AppHash: lastHash, Proposer: g.h.ValAddr}
 		g.h.Blocks = append(g.h.Blocks, blk)
 		g.cur = &g.h.Blocks[len(g.h.Blocks)-1]
 		bt := c06BlockTrace{Height: height}
@@ -1415,6 +1421,16 @@ func (g *c06Gen) run() (*c06Trace, error) {
 				g.send(pp.By, "filetree.PostFile(after rolled-back grant)", &filetreetypes.MsgPostFile{Creator: by, Account: c06Sha(ow), HashParent: pp.Entry.Address, HashChild: c06Sha(fmt.Sprint("late", height)),
 					Contents: "{}", Viewers: "{}", Editors: "{}", TrackingNumber: "tn" + c06Sha(fmt.Sprint("late", height))[:16]})
 			}
+			if !cfg.Anchor.IsZero() && height == 8 {
+				if d := time.Until(cfg.Anchor); d > 0 && d < 40*time.Second {
+					time.Sleep(d)
+				}
+				if late := time.Since(cfg.Anchor); late >= 0 && late < time.Second {
+					u := g.user(0) // has a running plan since height 3: this purchase is an upgrade, credited for the time left
+					g.send(u, "storage.BuyStorage(upgrade, wall-clock anchored)", &storagetypes.MsgBuyStorage{Creator: g.accts[u].Addr.String(), ForAddress: g.accts[u].Addr.String(), DurationDays: 720, Bytes: 9_000_000_000, PaymentDenom: "ujkl", Referral: ""})
+					g.r.Hist("c06_ops", "wall-clock anchored upgrade")
+				}
+			}
 			if height > 6 && height%5 == 2 {
 				b2 := g.user(2 % cfg.NUsers)
 				g.send(b2, "storage.BuyStorage", &storagetypes.MsgBuyStorage{Creator: g.accts[b2].Addr.String(), ForAddress: g.accts[b2].Addr.String(), DurationDays: 400 + int64(g.p.Intn(300)), Bytes: int64(4+g.p.Intn(4)) * 1_000_000_000, PaymentDenom: "ujkl", Referral: ""})
@@ -1479,6 +1495,11 @@ func runC06(r *RunCtx) error {
 		case hi%3 == 2:
 			cfg.CheckWindow, cfg.ProofWindow, cfg.BlockSeconds = 12, 6, 7200
 			cfg.Blocks = 6*cfg.CheckWindow + 6
+		}
+		if hi == 0 {
+			cfg.Anchor = time.Now().Add(r.ScaleDur(12*time.Second, 25*time.Second))
+			frac := cfg.Anchor.Sub(cfg.Anchor.Truncate(time.Hour))
+			cfg.Base = frac + 1500*time.Millisecond - T0.Sub(T0.Truncate(time.Hour))
 		}
 		hist, accts, err := c06Genesis(cfg)
 		if err != nil {
